@@ -39,12 +39,13 @@ var entropyCallees = map[string]string{
 	"hash/maphash.MakeSeed":      "random seed",
 	"crypto/rand.Read":           "OS entropy",
 	"crypto/rand.Int":            "OS entropy",
-	"time.Now":                   "wall clock",
 	"math/rand/v2.Uint64":        "runtime-seeded global source",
 	"math/rand/v2.Int64":         "runtime-seeded global source",
 	"runtime.fastrand64":         "runtime entropy",
 }
 
+// Not accepted: the wall clock (time.Now) as the only source — test case i is seeded with base + i(i+1)/2, so two Checks
+// started within a few microseconds of each other (parallel subtests, CI shards) explore overlapping sequences.
 // Not accepted: the global source of math/rand (rand.Uint64, rand.Int63, …). It is runtime-seeded by default, but any
 // rand.Seed(k) in the user's test code (common in tests) or GODEBUG=randautoseed=0 makes it a fixed sequence: every
 // Check then explores the same test cases (seed C18gB). math/rand/v2's global source cannot be reseeded.
